@@ -293,6 +293,25 @@ def check_solve(case):
         out.le(site + ":x equals reference solution", ref.fro(x - xref),
                (10.0 * kappa * max(tol, floor) + floor) * max(ref.fro(xref), 1e-300) * (kappa if prec else 1.0),
                f"||x-xref||, kappa={kappa:.2e}")
+    if cap is None and not case["sparse"] and case_flag(A, 3, salt=1):
+        # the right-hand side is a VIEW of a column of A itself (b = A[:, j:j+1], e.g. when inverting column by
+        # column): the solution is e_j, and neither argument may change although they share memory
+        j = int(np.argmax(np.sum(A * A, axis=(0, 2))))
+        Aq_ = Q(A)
+        bq_ = Aq_[:, j:j + 1]
+        hA_ = ahash(Aq_)
+        sol_ = L.solver.QGMRESSolver(tol=tol, max_iter=None, verbose=False, preconditioner=prec)
+        site_v = site + "[b is a view of a column of A]"
+        okv, rv = out.call(site_v, sol_.solve, Aq_, bq_)
+        if okv:
+            out.true(site_v + ":arguments unchanged", ahash(Aq_) == hA_, "A (and with it b) modified by solve")
+            xv = F(np.asarray(rv[0]))
+            if out.true(site_v + ":x shape", xv.shape == (n, 1, 4), f"{xv.shape}"):
+                ej = np.zeros((n, 1, 4))
+                ej[j, 0, 0] = 1.0
+                out.le(site_v + ":x = e_j", ref.fro(xv - ej),
+                       (10.0 * kappa * max(tol, floor) + floor) * (kappa if prec else 1.0), f"kappa={kappa:.2e}")
+            out.label("b_view_of_A_column")
     # residual history is non-increasing in its true-residual column
     hist = info.get("residual_history") or []
     vals = [float(h[2]) for h in hist if len(h) >= 3]
